@@ -49,8 +49,32 @@ def main():
                         str(mod_).startswith('emg3d')) or (
                     isinstance(e, ImportError) and
                     str(getattr(e, 'name', '')).startswith('emg3d'))
-                if not lost:
+                infra = isinstance(e, (OSError, MemoryError, RuntimeError,
+                                       ImportError, KeyboardInterrupt)) or \
+                    type(e).__name__ in ('TimeoutExpired', 'BrokenProcessPool',
+                                         'CalledProcessError')
+                if not lost and (infra or not getattr(ctx, 'lean_ok', False)):
                     return 2
+                if not lost:
+                    # the harness could not digest what the code under test
+                    # produced (malformed output, a compile error of a jitted
+                    # kernel, ...): on the unchanged tree this does not
+                    # happen; the correspondence cannot be established, so the
+                    # property is no longer shown to hold
+                    ctx.violation(
+                        'code-output-not-evaluable',
+                        f'{type(e).__name__}: {str(e)[:300]} while the '
+                        f'harness was evaluating the output of the code under '
+                        f'test (at {os.path.basename(tb[-1].filename)}:'
+                        f'{tb[-1].lineno}); the correspondence could not be '
+                        f'established',
+                        {'exception': type(e).__name__,
+                         'message': str(e)[:500],
+                         'traceback': [f'{os.path.relpath(f.filename, "/")}:'
+                                       f'{f.lineno} {f.name}'
+                                       for f in tb][-12:]},
+                        found_input=False)
+                    return ctx.finish()
                 ctx.violation(
                     'tie-to-code-lost',
                     f'{type(e).__name__}: {str(e)[:200]}: an internal of '
